@@ -11,6 +11,7 @@ Ties (the program is generated FROM a term of the model: use-graph first, then r
       (sources.Sources.TypeInfo.InstanceSets, no hook needed) vs `collect` of the Lean model on the same use-graph (set AND ids)."""
 import json
 import os
+import random
 import re
 import shutil
 
@@ -28,7 +29,16 @@ THEOREMS = ["collect_sound", "collect_complete", "collect_exact", "collect_termi
 
 INTS = ["int", "int8", "int16", "int32", "uint8", "uint16", "uint32"]
 SHADOW = ["main.X#1", "main.X#2"]     # two DISTINCT types declared in sibling blocks of main(), both printed "main.X"
-BASICS = INTS + ["string", "bool", "float64", "base.MyI8", "base.Blk", "base.MyS"] + SHADOW
+EXTRA = ["any", "func(int) string", "struct{A int; B string}"]     # appended AFTER the shadow atoms: protocol indices stay stable
+BASICS = INTS + ["string", "bool", "float64", "base.MyI8", "base.Blk", "base.MyS"] + SHADOW + EXTRA
+# identical types, different spellings: the renderer picks one independently for every textual occurrence
+SPELLINGS = {
+    "uint8": ["uint8", "byte"],
+    "int32": ["int32", "rune"],
+    "any": ["any", "interface{}"],
+    "func(int) string": ["func(int) string", "func(a int) string", "func(b int) (r string)"],
+    "struct{A int; B string}": ["struct{ A int; B string }", "struct{ A int; B string; }", "struct {\n\tA int\n\tB string\n}"],
+}
 BIDX = {b: i for i, b in enumerate(BASICS)}
 TAGGED = ["base.MyI8", "base.Blk", "base.MyS"]
 CONSTRAINT = {"any": "any", "cmp": "comparable", "int": "base.Integer", "tag": "base.Tagger"}
@@ -464,6 +474,8 @@ class Gen:
     def classes_of_basic(self, b):
         if b in INTS or b in ("base.MyI8", "base.Blk"):
             return {"any", "cmp", "int"}
+        if b in ("any", "func(int) string"):
+            return {"any"}
         return {"any", "cmp"}
 
     def gen_type(self, P, ctx, cls, depth, closed_only=False, min_pos=None):
@@ -636,9 +648,14 @@ class Gen:
 # ----------------------------------------------------------------------------------------------------------------
 
 class Render:
-    def __init__(self, P):
+    def __init__(self, P, rng=None):
         self.P = P
         self.tmp = 0
+        self.rng = rng              # None: canonical spelling everywhere
+        self.aliases = {}           # pkg -> {term: alias name}: `type Al3 = []int` declared at package level
+
+    def alias_ok(self, t):
+        return t[0] in 'SPCM' and is_closed(t) and not has_named(t) and not has_shadow(t)
 
     def qual(self, d, pkg):
         return d.name if d.pkg == pkg else "%s.%s" % (self.P.pkg_name(d.pkg), d.name)
@@ -647,11 +664,27 @@ class Render:
         """Go syntax of a type term inside package `pkg` (for_string: go/types TypeString with package-name qualifier)"""
         k = t[0]
         r = lambda x: self.ty(x, pkg, own, nest, for_string)
+        rng = None if for_string else self.rng
+        if rng is not None and self.alias_ok(t) and rng.random() < 0.3:
+            tab = self.aliases.setdefault(pkg, {})
+            if t not in tab:
+                tab[t] = "Al%d" % len(tab)
+            return tab[t]
+        if rng is not None and k in 'bSM' and not (k == 'b' and t[1] in SHADOW) and rng.random() < 0.12:
+            return "(" + self.ty_plain(t, pkg, own, nest) + ")"
+        return self.ty_plain(t, pkg, own, nest, for_string)
+
+    def ty_plain(self, t, pkg, own="T", nest="T", for_string=False):
+        k = t[0]
+        r = lambda x: self.ty(x, pkg, own, nest, for_string)
+        rng = None if for_string else self.rng
         if k == 'b':
             if t[1] in SHADOW:
                 return "main.X" if for_string else "X"
             if t[1].startswith("base.") and pkg == 1 and not for_string:
                 return t[1][5:]
+            if rng is not None and t[1] in SPELLINGS:
+                return rng.choice(SPELLINGS[t[1]])
             return t[1]
         if k == 'o':
             return "%s%d" % (own, t[1])
@@ -714,7 +747,7 @@ class Render:
                 _, c, args, style = st
                 d = P.defs[c]
                 tys = [self.ty(a, pkg, own, nest) for a in args]
-                vals = ", ".join("*new(%s)" % t for t in tys)
+                vals = ", ".join("*new(%s)" % self.ty(a, pkg, own, nest) for a in args)
                 if style == 'explicit':
                     out.append("%s%s[%s](%s)" % (ind, self.qual(d, pkg), ", ".join(tys), vals))
                 else:
@@ -832,6 +865,12 @@ class Render:
             out += body
             out.append("}\n")
         text = "\n".join(out)
+        decls = ""
+        for t, al in self.aliases.get(p, {}).items():
+            saved, self.rng = self.rng, None
+            decls += "type %s = %s\n\n" % (al, self.ty(t, p))
+            self.rng = saved
+        text = decls + text
         imports = sorted({m for m in re.findall(r"\b(base|p\d+)\.", text) if m != name})
         head = "package %s\n\n" % name
         if imports:
@@ -845,8 +884,7 @@ class Render:
         if not ts:
             return []
         out = ["\t{"]
-        strs = [self.ty(t, 0) for t in ts]
-        out.append("\t\tvals := []any{%s}" % ", ".join("(*%s)(nil)" % s for s in strs))
+        out.append("\t\tvals := []any{%s}" % ", ".join("(*%s)(nil)" % self.ty(t, 0) for t in ts))
         out.append("\t\tm := map[any]int{}")
         out.append("\t\tfor i, v := range vals {\n\t\t\tif _, ok := m[v]; !ok {\n\t\t\t\tm[v] = i\n\t\t\t}\n\t\t}")
         out.append("\t\tfor i, v := range vals {")
@@ -855,15 +893,15 @@ class Render:
         out.append('\t\t\tline += ":" + base.Itoa(m[v]) + ":"')
         seen = []
         out.append("\t\t\tswitch v.(type) {")
-        for i, s in enumerate(strs):
-            if s in seen:
+        for i, t in enumerate(ts):
+            if t in seen:                      # identical types must not appear twice in one type switch
                 continue
-            seen.append(s)
-            out.append('\t\t\tcase *%s:\n\t\t\t\tline += "%d"' % (s, i))
+            seen.append(t)
+            out.append('\t\t\tcase *%s:\n\t\t\t\tline += "%d"' % (self.ty(t, 0), i))
         out.append('\t\t\tdefault:\n\t\t\t\tline += "?"\n\t\t\t}')
         out.append('\t\t\tline += ":"')
-        for s in strs:
-            out.append("\t\t\t{\n\t\t\t\t_, ok := v.(*%s)\n\t\t\t\tline += base.Btoa(ok)\n\t\t\t}" % s)
+        for t in ts:
+            out.append("\t\t\t{\n\t\t\t\t_, ok := v.(*%s)\n\t\t\t\tline += base.Btoa(ok)\n\t\t\t}" % self.ty(t, 0))
         out.append("\t\t\tbase.Emit(line)")
         out.append("\t\t}")
         out.append("\t}")
@@ -873,7 +911,7 @@ class Render:
         """main's description of the closed composite types without generic instances (no seeds are created by it)"""
         cases = []
         for i, t in enumerate(self.P.desc_types):
-            s = self.ty(t, 0)
+            s = (self.ty(t, 0), self.ty(t, 0, for_string=True))
             if i % 2 == 0:
                 cases.append(("switch", s))
             else:
@@ -883,11 +921,11 @@ class Render:
         if sw:
             out.append("\t\tswitch p.(type) {")
             for s in sw:
-                out.append('\t\tcase *%s:\n\t\t\treturn "%s", true' % (s, s))
+                out.append('\t\tcase *%s:\n\t\t\treturn "%s", true' % (s[0], s[1]))
             out.append("\t\t}")
         for k, s in cases:
             if k == "assert":
-                out.append('\t\tif _, ok := p.(*%s); ok {\n\t\t\treturn "%s", true\n\t\t}' % (s, s))
+                out.append('\t\tif _, ok := p.(*%s); ok {\n\t\t\treturn "%s", true\n\t\t}' % (s[0], s[1]))
         out.append('\t\treturn "", false')
         out.append("\t}\n}\n")
         return "\n".join(out)
@@ -1043,8 +1081,8 @@ def build_programs(chk, n, size):
                             named.append(t)
             chk.rng.shuffle(named)
             P.identity = named[:chk.rng.randint(2, 4)]
-            if P.identity and chk.rng.random() < 0.5:
-                P.identity.append(P.identity[0])          # the same instance twice: must be identical
+            if P.identity:
+                P.identity.append(P.identity[0])          # the same instance twice (spelled independently): must be identical
             # the matrix names every type 3 times (vals, switch case once per distinct, assertion)
             P.matrix_seed_stmts = []
             progs_.append(P)
@@ -1055,21 +1093,19 @@ def build_programs(chk, n, size):
 
 def identity_events(P):
     """seed events of the identity matrix, in walk order: vals literal, switch cases (distinct), assertions"""
-    R = Render(P)
     evs = []
 
     def occ(t):
         for n in nested_named(t, []):
             evs.append(('u', n[1], tuple(n[2]), False))
 
-    strs = [R.ty(t, 0) for t in P.identity]
     for t in P.identity:
         occ(t)
     seen = []
-    for t, s in zip(P.identity, strs):
-        if s in seen:
+    for t in P.identity:
+        if t in seen:
             continue
-        seen.append(s)
+        seen.append(t)
         occ(t)
     for t in P.identity:
         occ(t)
@@ -1102,7 +1138,9 @@ def run(tier, seed):
                 "generic types with methods, types and generic types declared inside generic functions, seeds in main and in imported "
                 "packages, forward uses with parameters, closed back uses = mutual recursion) is drawn from the seeded PRNG, its closure "
                 "is computed by the Lean model, the graph is rendered to Go; non-trivial = distinct program text; every instance prints "
-                "zero value / hand-built type description / arithmetic width / method dispatch (one Tag blocks) / identity probes")
+                "zero value / hand-built type description / arithmetic width / method dispatch (one Tag blocks) / identity probes; identical types are "
+                "spelled differently per occurrence (byte/uint8, rune/int32, any/interface{}, func parameter names, struct layout, aliases, "
+                "parentheses, inferred vs explicit); instance sets are compared on canonical (types.Identical) identity")
     chk.trusted = ["Lean 4.33 kernel", "axioms: propext, Classical.choice, Quot.sound at most (listed per theorem)",
                    "hand-written model GV.Model.Inst tied to compiler/internal/typeparams by the instance-set comparison (set and ids)",
                    "GV.Spec.Inst.Reach = my reading of the Go spec's instantiation rules", "native Go toolchain as oracle for program behaviour"]
@@ -1127,7 +1165,7 @@ def run(tier, seed):
         if sets is None:
             raise RuntimeError("model diverges after adding identity seeds (cannot happen: they are in the closure)")
         P.desc_types = [t for t in types_in_set(sets) if not has_named(t) and not has_shadow(t) and t[0] != 'b'][:40]
-        R = Render(P)
+        R = Render(P, random.Random(chk.rng.randrange(1 << 30)))     # spellings are drawn independently per occurrence
         mod = "gvq%dx%d" % (seed, k)
         jobs.append({"id": "g%d" % k, "mod": mod, "files": R.files(mod), "variants": ["plain", "minify"], "native": True, "timeout": 300})
         renders.append(R)
@@ -1157,18 +1195,21 @@ def run(tier, seed):
             ninst += len(lst)
         got = {}
         ids_ok = True
+        dups = []
         for ps in r.get("sets") or []:
             if not ps["insts"]:
                 continue          # Pkg() creates an empty set on lookup (instance.go:262-270)
             got[ps["pkg"]] = [norm(s) for s in (ps["insts"] or [])]
             if (ps.get("ids") or []) != list(range(len(ps["insts"] or []))):
                 ids_ok = False
+            if ps.get("dups"):
+                dups.append((ps["pkg"], ps["dups"]))
         got.pop("base", None)
         src = jobs[k]["files"]
         op = json.dumps({"program": "g%d" % k, "mod": jobs[k]["mod"], "model_line": lines[k][:20000], "files": src})
         ops.append(op)
         perr = r["runs"].get("plain", {}).get("err", "")
-        impl_ans.append(json.dumps(got, sort_keys=True) + ("" if ids_ok else " ids-not-positions") + (" compile-error:" + perr[:300] if perr and not got else ""))
+        impl_ans.append(json.dumps(got, sort_keys=True) + ("" if ids_ok else " ids-not-positions") + (" duplicate-instances(types.Identical):%s" % json.dumps(dups) if dups else "") + (" compile-error:" + perr[:300] if perr and not got else ""))
         model_ans.append(json.dumps(want, sort_keys=True))
     chk.compare("instance-sets", ops, impl_ans, model_ans,
                 kind=lambda o, a: "sets:%s" % ("1pkg" if a.count("[") <= 1 else "%dpkgs" % a.count("[")))
